@@ -45,6 +45,9 @@ type httpsSpec struct {
 	Svcs     []svc  `json:"services,omitempty"`
 	// WithAnswer (kind rcode): the failing response nevertheless carries an answer section (a CNAME and an HTTPS record for its target)
 	WithAnswer bool `json:"rcode_response_has_answer,omitempty"`
+	// Underscore: the last name of the alias chain begins with an underscore label (e.g. _edge.a1.example), like the
+	// resolver's own prefixed query names but not one of them
+	Underscore bool `json:"last_alias_starts_with_underscore,omitempty"`
 }
 
 type universe struct {
@@ -139,6 +142,12 @@ func build(u universe) (*zone, expectation) {
 	}
 	// names whose addresses may matter
 	addrs := func(name string, a, aaaa bool, rcode int, viaCNAME bool) (ips []net.IP) {
+		if rcode < 0 {
+			// only the AAAA lookup fails (with -rcode); the A lookup answers
+			z.data[zkey(name, 1)] = dohmem.Answer{Records: []dnsref.RR{{Name: name, Type: 1, Class: 1, TTL: 60, Fields: []dnsref.Field{{Raw: ipO4}}}}}
+			z.data[zkey(name, 28)] = dohmem.Answer{RCode: -rcode}
+			return nil
+		}
 		if rcode != 0 && !viaCNAME {
 			z.data[zkey(name, 1)] = dohmem.Answer{RCode: rcode}
 			z.data[zkey(name, 28)] = dohmem.Answer{RCode: rcode}
@@ -245,8 +254,12 @@ func build(u universe) (*zone, expectation) {
 	case "alias":
 		owner := qname
 		for i := 1; i <= h.Chain; i++ {
-			z.data[zkey(owner, 65)] = dohmem.Answer{Records: []dnsref.RR{aliasRR(owner, aliasName(i))}}
-			owner = aliasName(i)
+			next := aliasName(i)
+			if h.Underscore && i == h.Chain {
+				next = "_edge." + next
+			}
+			z.data[zkey(owner, 65)] = dohmem.Answer{Records: []dnsref.RR{aliasRR(owner, next)}}
+			owner = next
 			allow(owner, 65)
 		}
 		final = owner
@@ -346,6 +359,8 @@ func build(u universe) (*zone, expectation) {
 		if u.AddrRCode == 0 {
 			exp.results = append(exp.results, mkResult(services, finalIPs))
 		}
+	case u.AddrRCode < 0:
+		exp.errIs = []error{rcodeErr[-u.AddrRCode]}
 	case u.AddrRCode != 0:
 		exp.errIs = []error{rcodeErr[u.AddrRCode]}
 	default:
@@ -538,7 +553,7 @@ func expectStr(e expectation) string {
 
 func Run(r *ev.Run) {
 	log.SetOutput(io.Discard) // the package logs alias loops through the standard logger
-	r.Rule("reference resolver model (RFC 9460 §2.3, §2.4.2, §3 + property text) + total replay: universes = HTTPS data {none, NXDOMAIN/SERVFAIL/REFUSED/FORMERR/NOTIMP, alias chains of length 1..6, 12 and 30 ending in {nothing, service set, alias '.', loop to origin/first/self, NXDOMAIN, SERVFAIL}, 17 service sets (1-2 records, priorities in both orders and equal, targets '.', t1, t2, the owner/origin name spelled out, port, ech), failing responses that nevertheless carry an answer section} x final-name addresses {A?,AAAA?} x address rcode {ok,NXDOMAIN,SERVFAIL} x in-answer CNAME x target addresses {none, A, A+AAAA (+second target A), SERVFAIL, first target SERVFAIL while the second has an address} x poisoned answers on/off (records of the asked type owned by an unrelated name, and an unrelated CNAME followed by data for its target, before and after the genuine records) x 12 name forms (host, host:port, URIs with http/https/other schemes, upper-case scheme, trailing dot); plus literal/localhost forms and hostile lengths (host 253..300 bytes, labels 63/64, schemes 1..300 bytes). Every query is served by an in-memory DoH responder and logged. distinct = distinct (universe, form)")
+	r.Rule("reference resolver model (RFC 9460 §2.3, §2.4.2, §3 + property text) + total replay: universes = HTTPS data {none, NXDOMAIN/SERVFAIL/REFUSED/FORMERR/NOTIMP, alias chains of length 1..6, 12 and 30 (the last name optionally starting with an underscore label) ending in {nothing, service set, alias '.', loop to origin/first/self, NXDOMAIN, SERVFAIL}, 17 service sets (1-2 records, priorities in both orders and equal, targets '.', t1, t2, the owner/origin name spelled out, port, ech), failing responses that nevertheless carry an answer section} x final-name addresses {A?,AAAA?} x address rcode {ok, NXDOMAIN, SERVFAIL, SERVFAIL/REFUSED on the AAAA lookup only} x in-answer CNAME x target addresses {none, A, A+AAAA (+second target A), SERVFAIL, first target SERVFAIL while the second has an address} x poisoned answers on/off (records of the asked type owned by an unrelated name, and an unrelated CNAME followed by data for its target, before and after the genuine records) x 12 name forms (host, host:port, URIs with http/https/other schemes, upper-case scheme, trailing dot); plus literal/localhost forms and hostile lengths (host 253..300 bytes, labels 63/64, schemes 1..300 bytes). Every query is served by an in-memory DoH responder and logged. distinct = distinct (universe, form)")
 	r.Assume("reference model in checks/c14; chains of up to 3 aliases must be followed, longer ones may be followed or abandoned (fallback to the origin's addresses or an error); alias loops must end in the fallback or an error; RRsets mixing alias and service mode are excluded (RFC 9460 leaves them to the client)",
 		"the DoH responder chases CNAMEs itself (recursive-resolver behaviour): answers carry the CNAME followed by the target's records")
 	var svcSets [][]svc
@@ -572,6 +587,9 @@ func Run(r *ev.Run) {
 		for _, rc := range []int{2, 3} {
 			hs = append(hs, httpsSpec{Kind: "alias", Chain: l, Terminal: "rcode", RCode: rc})
 		}
+		if l <= 2 {
+			hs = append(hs, httpsSpec{Kind: "alias", Chain: l, Terminal: "none", Underscore: true}, httpsSpec{Kind: "alias", Chain: l, Terminal: "service", Svcs: svcSets[1], Underscore: true})
+		}
 		for i, s := range svcSets {
 			if !r.Thorough() && i%3 != l%3 {
 				continue
@@ -580,7 +598,7 @@ func Run(r *ev.Run) {
 		}
 	}
 	r.Set("https_specs", len(hs))
-	prod := enum.Product{len(hs), 2, 2, 3, 2, 5, 2, len(forms)}
+	prod := enum.Product{len(hs), 2, 2, 5, 2, 5, 2, len(forms)}
 	var executed atomic.Int64
 	mux := dohmem.NewMux()
 	dns.VerifRoundTripper = mux
@@ -592,12 +610,15 @@ func Run(r *ev.Run) {
 		srv := mux.Server(host)
 		for i := sh; i < total; i += nShard {
 			d := prod.Decode(i)
-			u := universe{HTTPS: hs[d[0]], AddrA: d[1] == 1, AddrAAAA: d[2] == 1, AddrRCode: []int{0, 3, 2}[d[3]], CNAME: d[4] == 1, T1: d[5], Poison: d[6] == 1, Form: d[7]}
+			u := universe{HTTPS: hs[d[0]], AddrA: d[1] == 1, AddrAAAA: d[2] == 1, AddrRCode: []int{0, 3, 2, -2, -5}[d[3]], CNAME: d[4] == 1, T1: d[5], Poison: d[6] == 1, Form: d[7]}
 			if !r.Thorough() {
 				// quick: the address-side dimensions are crossed fully only with the first 4 name forms; other forms take a covering rotation
 				if d[7] >= 4 && (d[1]*8+d[2]*4+d[3]+d[4]*2+d[5])%6 != (d[0]+d[7])%6 {
 					continue
 				}
+			}
+			if u.AddrRCode < 0 && (u.CNAME || d[1]+d[2] != 2) {
+				continue // the AAAA-only failure has one address shape
 			}
 			evalUniverse(r, u, srv, host)
 			executed.Add(1)
@@ -621,7 +642,10 @@ func hostile(r *ev.Run, srv *dohmem.Server) {
 		want string
 		port int
 	}{{"192.0.2.7", "192.0.2.7", 443}, {"192.0.2.7:8443", "192.0.2.7", 8443}, {"[2001:db8::1]:443", "2001:db8::1", 443}, {"https://192.0.2.7/x", "192.0.2.7", 443},
-		{"localhost", "127.0.0.1,::1", 443}, {"localhost:8080", "127.0.0.1,::1", 8080}}
+		{"localhost", "127.0.0.1,::1", 443}, {"localhost:8080", "127.0.0.1,::1", 8080},
+		// an IPv6 literal in the bracketed spelling URIs require, with and without a port
+		{"https://[2001:db8::1]/x", "2001:db8::1", 443}, {"https://[2001:db8::1]:8443/x", "2001:db8::1", 8443}, {"http://[::1]/", "::1", 443},
+		{"[2001:db8::1]", "2001:db8::1", 443}, {"2001:db8::1", "2001:db8::1", 443}}
 	for _, l := range lit {
 		srv.Reset()
 		res, _ := ech.NewResolver("https://doh.test/dns-query")
